@@ -59,8 +59,8 @@ theorem evalBin_good (o : Bin) (k : Kind) (x y : Q) (hx : k.Inv x) (hy : k.Inv y
   · exact good_split (R.div_spec x y hx hy)
   · exact good_split (R.rem_spec x y hx hy)
   · exact good_split (R.remEuclid_spec x y hx hy)
-  · exact good_ex (by simpa [X.add] using X.addSub_spec false x y hx hy)
-  · exact good_ex (by simpa [X.sub] using X.addSub_spec true x y hx hy)
+  · exact good_ex (by simpa [X.add, Kind.Inv] using X.addSub_spec false x y hx hy)
+  · exact good_ex (by simpa [X.sub, Kind.Inv] using X.addSub_spec true x y hx hy)
   · exact good_ex (X.mul_spec x y hx hy)
   · exact good_split (X.div_spec x y hx hy)
   · exact good_split (X.rem_spec x y hx hy)
@@ -108,6 +108,9 @@ theorem goodReg_map {k : Kind} {m : Except PanicKind Q} {spec : Option ℚ} (h :
   | ok q => exact ⟨(Reg.inv_iff _).2 h.1, h.2⟩
   | error e => exact h
 
+theorem goodReg_ok {r : Reg} {v : ℚ} (h : r.kind.Inv r.q) (hv : r.q.val = v) :
+    GoodReg (.ok r) (some v) := ⟨(Reg.inv_iff _).2 h, by rw [← hv]; rfl⟩
+
 theorem kind_pow (k : Kind) (x : Q) (n : ℕ) (hx : k.Inv x) :
     k.Inv (pow x n) ∧ (pow x n).val = x.val ^ n := by
   cases k
@@ -126,11 +129,12 @@ theorem evalUn_good (o : Un) (r : Reg) (hr : r.Inv) :
   have hx : k.Inv x := (Reg.inv_iff _).1 hr
   have hpos := hx.den_pos
   have hz := val_eq_zero_iff hpos
-  cases o <;> simp only [evalUn, Spec.un, Reg.val]
+  change GoodReg (evalUn o ⟨k, x⟩) (Spec.un o x.val)
+  cases o <;> simp only [evalUn, Spec.un]
   · -- neg
     cases k
-    · exact ⟨(neg_spec x hx).1, by rw [(neg_spec x hx).2]⟩
-    · exact ⟨(relaxed_neg x hx).1, by rw [(relaxed_neg x hx).2]⟩
+    · exact goodReg_ok (neg_spec x hx).1 (neg_spec x hx).2
+    · exact goodReg_ok (relaxed_neg x hx).1 (relaxed_neg x hx).2
   · -- abs
     have habs : (if 0 ≤ x.val then x.val else -x.val) = |x.val| := by
       split
@@ -138,10 +142,10 @@ theorem evalUn_good (o : Un) (r : Reg) (hr : r.Inv) :
       · rename_i h; exact (abs_of_neg (not_le.mp h)).symm
     rw [habs]
     cases k
-    · exact ⟨(abs_spec x hx).1, by rw [(abs_spec x hx).2]⟩
-    · exact ⟨(relaxed_abs x hx).1, by rw [(relaxed_abs x hx).2]⟩
+    · exact goodReg_ok (abs_spec x hx).1 (abs_spec x hx).2
+    · exact goodReg_ok (relaxed_abs x hx).1 (relaxed_abs x hx).2
   · -- inv
-    rw [hz]
+    simp only [hz]
     apply goodReg_map
     cases k
     · exact good_split (inv_spec x hx)
@@ -149,16 +153,16 @@ theorem evalUn_good (o : Un) (r : Reg) (hr : r.Inv) :
   · -- sqr
     have := kind_pow k x 2 hx
     rw [← sqr_eq_pow] at this
-    exact ⟨(Reg.inv_iff _).2 this.1, by rw [Reg.val, this.2, pow_two]⟩
+    exact goodReg_ok this.1 (by rw [this.2, pow_two])
   · -- cubic
     have := kind_pow k x 3 hx
     rw [← cubic_eq_pow] at this
-    exact ⟨(Reg.inv_iff _).2 this.1, by rw [Reg.val, this.2]; ring_nf⟩
+    exact goodReg_ok this.1 (by rw [this.2]; ring)
   · -- signum
     rcases signum_spec x with h | h
     · cases k
-      · exact ⟨h.1, by rw [Reg.val, h.2]⟩
-      · exact ⟨relaxed_signum x, by rw [Reg.val, h.2]⟩
+      · exact goodReg_ok h.1 h.2
+      · exact goodReg_ok (relaxed_signum x) h.2
     · omega
   · -- fract
     apply goodReg_map
@@ -167,8 +171,8 @@ theorem evalUn_good (o : Un) (r : Reg) (hr : r.Inv) :
     · exact good_ex (X.fract_spec x hx)
   · -- relax
     cases k
-    · exact ⟨Reduced.relaxedInv hx, rfl⟩
-    · exact ⟨hx, rfl⟩
+    · exact goodReg_ok (r := ⟨.X, x⟩) (Reduced.relaxedInv hx) rfl
+    · exact goodReg_ok (r := ⟨.X, x⟩) hx rfl
   · -- canon
     apply goodReg_map (k := .R)
     exact good_ex (reduce_spec x hpos)
@@ -240,7 +244,7 @@ theorem step_sound (env : List Reg) (op : Op) (henv : ∀ r ∈ env, r.Inv) : St
       have ha : a.Inv := henv a (List.mem_of_getElem? hi)
       have := kind_pow a.kind a.q n ((Reg.inv_iff a).1 ha)
       simp only [Option.map_some, Option.bind_eq_bind, Option.bind_some]
-      exact ⟨(Reg.inv_iff _).2 this.1, by rw [Reg.val, this.2]; rfl⟩
+      exact goodReg_ok (r := ⟨a.kind, _⟩) this.1 this.2
   | mulSign i s =>
     simp only [step, Spec.step, getElem?_map_val]
     cases hi : env[i]? with
@@ -249,7 +253,7 @@ theorem step_sound (env : List Reg) (op : Op) (henv : ∀ r ∈ env, r.Inv) : St
       have ha : a.Inv := henv a (List.mem_of_getElem? hi)
       have := kind_mulSign a.kind a.q s ((Reg.inv_iff a).1 ha)
       simp only [Option.map_some, Option.bind_eq_bind, Option.bind_some]
-      exact ⟨(Reg.inv_iff _).2 this.1, by rw [Reg.val, this.2]; rfl⟩
+      exact goodReg_ok (r := ⟨a.kind, _⟩) this.1 this.2
   | intR o i z =>
     simp only [step, Spec.step, getElem?_map_val]
     cases hi : env[i]? with
